@@ -194,6 +194,7 @@ fn explore(cx: &mut Ctx, rng: &mut Rng) {
         let mut sink = |c: Case| cases.push(c);
         control_flow_cases(thorough, rng, &mut sink);
         register_pressure_cases(thorough, &mut sink);
+        iterator_reentrancy_cases(&sweep.eps, &mut sink);
     }
     if let Some(f) = &only {
         cases.retain(|c| c.apis.iter().any(|a| a.contains(f.as_str())));
@@ -222,9 +223,10 @@ fn explore(cx: &mut Ctx, rng: &mut Rng) {
         let mut sink = |c: Case| b.buf.push(c);
         control_flow_cases(thorough, rng, &mut sink);
         register_pressure_cases(thorough, &mut sink);
+        iterator_reentrancy_cases(&sweep.eps, &mut sink);
     }
     let cases = std::mem::take(&mut b.buf);
-    eprintln!("[c06] control-flow / register-pressure cases: {}", cases.len());
+    eprintln!("[c06] control-flow / register-pressure / iterator-reentrancy cases: {}", cases.len());
     // the same texts also go through parse + compile + format + Display
     let mut both: Vec<Case> = Vec::with_capacity(cases.len() * 2);
     for c in cases {
@@ -383,8 +385,9 @@ fn replay_known(cx: &mut Ctx) {
             cx.rep.note(format!("witness of {} panics elsewhere: {:?}", k.id, other));
         }
     }
-    // documented hangs (termination inside natives is outside C06; reported as notes)
-    for src in ["'abc'.split('').to_list()", "'abc'.split('').count()"] {
+    // former hang (string.split with an empty pattern, repaired by e1818ae): must terminate now —
+    // a hang is reported in the notes (termination inside natives is outside C06)
+    for src in ["'abc'.split('').to_list()", "'abc'.split('').count()", "'héllo'.split('').to_tuple()"] {
         hang_probe_cases.push(Case { kind: 'R', text: src.to_string(), group: "hang-probe", apis: vec!["string.split".into()] });
     }
     let outs = cx.pool.run_opts(&hang_probe_cases, Duration::from_millis(1500), false);
